@@ -115,8 +115,9 @@ def case_strategy(draw, quick=True):
             if any(v is None for v in vals):
                 # required species field with an empty pool cannot happen (desc0 sets it)
                 raise core.HarnessError('generator produced an impossible required field')
-    napp = draw(st.integers(0, 2)) if layout != 'create_assoc' else 0
-    app = [draw(later_desc(fdefs, groups, desc0, n_range)) for _ in range(napp)]
+    napp = draw(st.integers(0, 2))
+    app_extend = draw(st.integers(0, 3)) == 0
+    app = [draw(later_desc(fdefs, groups, desc0, n_range, extend=(app_extend and k == 0))) for k in range(napp)]
     return {
         'fdefs': fdefs,
         'layout': layout,
